@@ -632,8 +632,44 @@ class Exec:
             return ~v
         raise Unsupported("unary op")
 
+    @staticmethod
+    def _pure_operand(n):
+        if isinstance(n, ast.Constant):
+            return True
+        if isinstance(n, ast.Name):
+            return True
+        if isinstance(n, ast.Attribute):
+            return isinstance(n.value, ast.Name) or (isinstance(n.value, ast.Attribute) and Exec._pure_operand(n.value))
+        if isinstance(n, ast.UnaryOp) and isinstance(n.op, (ast.USub, ast.UAdd)):
+            return Exec._pure_operand(n.operand)
+        if isinstance(n, ast.BinOp) and isinstance(n.op, (ast.Add, ast.Sub, ast.Mult)):
+            return Exec._pure_operand(n.left) and Exec._pure_operand(n.right)
+        if isinstance(n, ast.Tuple):
+            return all(Exec._pure_operand(e) for e in n.elts)
+        return False
+
+    @staticmethod
+    def _pure_cond(n):
+        """condition built only from comparisons of names / attributes / constants: evaluating all of it can neither
+        raise nor have an effect, so short-circuit order is unobservable and the whole thing is one boolean term"""
+        if isinstance(n, ast.BoolOp):
+            return all(Exec._pure_cond(v) for v in n.values)
+        if isinstance(n, ast.UnaryOp) and isinstance(n.op, ast.Not):
+            return Exec._pure_cond(n.operand)
+        if isinstance(n, ast.Compare):
+            return (all(isinstance(o, (ast.Eq, ast.NotEq, ast.Lt, ast.LtE, ast.Gt, ast.GtE, ast.In, ast.NotIn))
+                        for o in n.ops)
+                    and Exec._pure_operand(n.left) and all(Exec._pure_operand(c) for c in n.comparators))
+        return False
+
     def e_BoolOp(self, node, fr):
         is_and = isinstance(node.op, ast.And)
+        if not self.spec_mode and self._pure_cond(node):
+            vals = [self.eval(v, fr) for v in node.values]
+            if all(isinstance(v, (bool, SBool)) for v in vals) and any(isinstance(v, SBool) for v in vals):
+                terms = [bterm(v) for v in vals]
+                return mk_bool(z3.And(*terms) if is_and else z3.Or(*terms))
+            # fall through to the ordinary evaluation on the already computed values is not possible: re-evaluate
         if self.spec_mode:
             terms = []
             for sub in node.values:
@@ -674,6 +710,11 @@ class Exec:
         t = self.truth_value(c)
         if isinstance(t, bool):
             return self.eval(node.body if t else node.orelse, fr)
+        if self.spec_mode:
+            if self.known(t.t):
+                return self.eval(node.body, fr)
+            if self.known(z3.Not(t.t)):
+                return self.eval(node.orelse, fr)
         if self.spec_mode or (self._simple_pure(node.body) and self._simple_pure(node.orelse)):
             a = self.eval(node.body, fr)
             b = self.eval(node.orelse, fr)
@@ -691,7 +732,8 @@ class Exec:
             return mk_int(z3.If(c.t, iterm(a), iterm(b)))
         if isinstance(a, (bool, SBool)) and isinstance(b, (bool, SBool)):
             return mk_bool(z3.If(c.t, bterm(a), bterm(b)))
-        if isinstance(a, (SFloat, float)) and isinstance(b, (SFloat, float)):
+        if isinstance(a, (SFloat, float, int, SInt)) and isinstance(b, (SFloat, float, int, SInt)) \
+                and not isinstance(a, bool) and not isinstance(b, bool):
             return SFloat(z3.If(c.t, fterm(a), fterm(b)))
         if a is b:
             return a
@@ -1084,8 +1126,43 @@ class Exec:
     def undo_container(self, obj, key, had, old):
         self.undo.append((_ItemUndo(obj, key), None, had, old))
 
+    @staticmethod
+    def _append_only(stmts):
+        for st in stmts:
+            if isinstance(st, ast.If):
+                if st.orelse or not Exec._append_only(st.body):
+                    return False
+                continue
+            if not (isinstance(st, ast.Expr) and isinstance(st.value, ast.Call)
+                    and isinstance(st.value.func, ast.Attribute) and st.value.func.attr == "append"
+                    and isinstance(st.value.func.value, ast.Name) and len(st.value.args) == 1
+                    and not st.value.keywords):
+                return False
+        return bool(stmts)
+
+    def _guarded_appends(self, stmts, guard, fr):
+        from .models import Guarded
+        for st in stmts:
+            if isinstance(st, ast.If):
+                t = self.truth_value(self.eval(st.test, fr))
+                if isinstance(t, bool):
+                    if t:
+                        self._guarded_appends(st.body, guard, fr)
+                    continue
+                self._guarded_appends(st.body, z3.And(guard, t.t), fr)
+            else:
+                lst = self.lookup(st.value.func.value.id, fr)
+                if not isinstance(lst, list):
+                    raise Unsupported("guarded append to a non-list")
+                lst.append(Guarded(z3.simplify(guard), self.eval(st.value.args[0], fr)))
+
     def s_If(self, node, fr):
         c = self.eval(node.test, fr)
+        if not node.orelse and self._append_only(node.body):
+            t = self.truth_value(c)
+            if not isinstance(t, bool):
+                # if-conversion: the body only appends to lists, so no fork is needed
+                return self._guarded_appends(node.body, t.t, fr)
         if self.truth(c, tag=f"if@{node.lineno}"):
             self.exec_block(node.body, fr)
         else:
